@@ -49,6 +49,10 @@ type Control struct {
 	// OnRollback is called after a rollback (explicit or forced).
 	OnRollback func()
 
+	// Changes lists the rows (table, rowid) inserted, updated or deleted by
+	// the transaction that is open or was committed last.
+	Changes []Change
+
 	// statistics
 	Begins, Commits, Rollbacks, Stmts int
 	Fired                             map[string]int
@@ -58,6 +62,12 @@ type Control struct {
 	inTx    bool
 	stmtIdx int
 	wrote   bool
+}
+
+// Change is one row change reported by the engine's update hook.
+type Change struct {
+	Table string
+	Rowid int64
 }
 
 func NewControl() *Control { return &Control{Fired: map[string]int{}} }
@@ -109,7 +119,12 @@ func (c *connector) Connect(ctx context.Context) (driver.Conn, error) {
 	if err != nil {
 		return nil, err
 	}
-	return &conn{raw: raw.(*sqlite3.SQLiteConn), ctl: c.ctl}, nil
+	rc := raw.(*sqlite3.SQLiteConn)
+	ctl := c.ctl
+	rc.RegisterUpdateHook(func(op int, db string, table string, rowid int64) {
+		ctl.Changes = append(ctl.Changes, Change{Table: table, Rowid: rowid})
+	})
+	return &conn{raw: rc, ctl: ctl}, nil
 }
 
 func (c *connector) Driver() driver.Driver { return drv{} }
@@ -176,6 +191,7 @@ func (c *conn) BeginTx(ctx context.Context, opts driver.TxOptions) (driver.Tx, e
 		return nil, err
 	}
 	ctl.Begins++
+	ctl.Changes = ctl.Changes[:0]
 	ctl.cur = f
 	ctl.inTx = true
 	ctl.stmtIdx = 0
